@@ -1,10 +1,12 @@
 //! Driver for libp2p-autonat v2 (extension component X05): the dial-back server (and client).
+mod client;
 mod server;
 
 fn main() {
     let a = vcommon::Args::parse();
     match a.mode.as_str() {
         "server" => server::main(&a),
+        "client" => client::main(&a),
         m => {
             eprintln!("unknown mode {m}");
             std::process::exit(2)
